@@ -72,9 +72,15 @@ const sealHashC = "00000000000000000000000000000001"
 var sealSegments = []string{"r1", "deep/r2", "..", ".", "%2e%2e", "%2E%2E%2F", "..%2f", "%2f", "r1/..", "r 1", "rä", "//", "outside", "srv", "r1/../../outside", "....", "..;", "\\..\\", "%00", "%5c..", "r1%2F..%2F..%2Foutside"}
 
 // genSealPath builds a request path; evil ones aim at ../outside/<decoy>.
-func genSealPath(r *core.Rand) string {
+func genSealPath(r *core.Rand, root string) string {
 	file := []string{sealHashA, sealHashB, sealHashC, sealHashA + ".darc", "manifest", "LOCK", "journal.idx", sealHashA[:31], sealHashA + "x", "..", ""}[r.Intn(11)]
-	switch r.Intn(8) {
+	switch r.Intn(10) {
+	case 8:
+		// an absolute path behind an encoded separator: after decoding the path begins with two
+		// slashes, and stripping only one of them would leave the absolute path of a decoy
+		return "/%2F" + strings.TrimPrefix(root, "/") + "/outside/" + file
+	case 9:
+		return "/%2f%2F" + strings.TrimPrefix(root, "/") + "/" + file
 	case 0:
 		return "/r1/" + file
 	case 1:
@@ -214,7 +220,7 @@ func (SEAL) Execute(t *testing.T, sc *core.Scenario) *core.Result {
 				v.Pinned, _ = json.Marshal(b2)
 			}
 		}
-		rawPath := genSealPath(cr)
+		rawPath := genSealPath(cr, root)
 		q := ""
 		if cr.Chance(1, 2) {
 			q = fmt.Sprintf("num_chunks=%d&content_length=%d&split_offset=0", cr.Range(1, 9), cr.Range(1, 64))
